@@ -2,6 +2,7 @@ import Dia.Props.C02
 import Dia.Strict
 import Dia.SpecTop
 import Dia.ConsNoLie
+import Dia.Utf8Spec
 /-! # C03 - Decoding is faithful: accepted frames mean what their bytes say. Property theorems only.
 `Spec.encode` (Dia/Spec.lean) is the independent RFC 6733 reading; `applyMask _ (maskList _)` forgets exactly what
 the property allows to be normalised: AVP padding octets (`zero`) and the five reserved AVP flag bits (`flags`). -/
@@ -130,6 +131,15 @@ theorem C03_parsed_frames_in_domain (cfg : Cfg) (s0 : MState) (bs : Bytes) (s : 
   have hlen : (Spec.encode s).length = 20 + (encodeAvps s.avps).length := by
     simp [Spec.encode, u24be, u32be]; omega
   rw [hp.size, hlen, hbody]; rfl
+
+/-- **what "well-formed UTF-8 text" means, independently.** The predicate the model uses for `String::from_utf8`
+(`utf8Valid`: the byte-range table, Unicode Table 3-7) accepts an octet string exactly when it is a concatenation of
+RFC 3629 encodings of Unicode scalar values (code points below 0x110000 that are not surrogates): overlong forms,
+surrogates, values beyond U+10FFFF, stray continuation octets and truncated sequences are all refused, and nothing else
+is. This is the meaning of `Valid` for UTF8String, DiameterIdentity and E.164 values in `Spec.Parses`. -/
+theorem C03_utf8_is_rfc3629 (bs : Bytes) :
+    utf8Valid bs = true ↔ ∃ cs : List Nat, (∀ c ∈ cs, isScalar c) ∧ bs = cs.flatMap encScalar :=
+  utf8Valid_iff bs
 
 /-! ### finding F1: the full statement fails for the lenient configuration the code has today -/
 
